@@ -16,6 +16,22 @@ pub fn child_main(jobdir: &Path) {
     let job: Job = serde_json::from_str(&fs::read_to_string(jobdir.join("job.json")).unwrap())
         .expect("job.json");
     crate::pipeline::install_panic_hook();
+    if !job.warm.is_empty() {
+        let warm_dir = jobdir.join("warm");
+        let back = std::env::current_dir().unwrap();
+        if std::env::set_current_dir(&warm_dir).is_ok() {
+            let mut warm_job = job.clone();
+            warm_job.files = job.warm.clone();
+            warm_job.warm.clear();
+            warm_job.run = false;
+            warm_job.link = false;
+            let _ = std::panic::catch_unwind(std::panic::AssertUnwindSafe(|| {
+                crate::pipeline::run_job(&warm_job, &jobdir.join("progress_warm"))
+            }));
+            let _ = crate::pipeline::take_panic();
+        }
+        std::env::set_current_dir(back).unwrap();
+    }
     let res = crate::pipeline::run_job(&job, &jobdir.join("progress"));
     fs::write(jobdir.join("result.json"), serde_json::to_string(&res).unwrap()).unwrap();
 }
@@ -31,6 +47,16 @@ fn run_one(exe: &Path, workroot: &Path, idx: usize, job: &Job) -> JobResult {
             fs::create_dir_all(parent).unwrap();
         }
         fs::write(&p, text).unwrap();
+    }
+    if !job.warm.is_empty() {
+        let warm = jobdir.join("warm");
+        for (name, text) in &job.warm {
+            let p = warm.join(name);
+            if let Some(parent) = p.parent() {
+                fs::create_dir_all(parent).unwrap();
+            }
+            fs::write(&p, text).unwrap();
+        }
     }
     fs::write(jobdir.join("job.json"), serde_json::to_string(job).unwrap()).unwrap();
     let out = fs::File::create(jobdir.join("compiler_stdout")).unwrap();
@@ -96,6 +122,12 @@ fn run_one(exe: &Path, workroot: &Path, idx: usize, job: &Job) -> JobResult {
     }
     res.crash = crash;
     if let Ok(bytes) = fs::read(jobdir.join("compiler_stdout")) {
+        if res.crash.starts_with("exit:") {
+            let text = String::from_utf8_lossy(&bytes);
+            let lines: Vec<&str> = text.lines().filter(|l| !l.trim().is_empty() && !l.contains('\u{1b}')).collect();
+            let tail: Vec<&str> = lines.iter().rev().take(3).rev().cloned().collect();
+            res.compiler_stdout_tail = tail.join(" | ").chars().take(300).collect();
+        }
         res.compiler_stdout_markers = bytes
             .iter()
             .filter(|b| (1..=8).contains(*b))
